@@ -1,6 +1,6 @@
 (** C10 - Interaction-list files replay the event stream and round-trip presence. *)
 From DynVerif Require Import Base Graph Derived Spec Annotate IO.
-From DynVerif.proofs Require Import CoreInv C01Facts QueryFacts LogInv DerivedFacts IOFacts.
+From DynVerif.proofs Require Import CoreInv C01Facts QueryFacts LogInv DerivedFacts IOFacts ReplayFacts.
 From Coq Require Import Sorting.Sorted.
 
 (** write_interactions emits exactly the events of stream_interactions(), as rows (u, v, op, t), in
@@ -40,10 +40,23 @@ Theorem C10_minus_presence : forall dir rem h c k tau,
 Proof. exact CoreInv.pres_snoc. Qed.
 Print Assumptions C10_minus_presence.
 
-(** PARTIAL (finding K-C10-1, consequence of K-C05-1): the round trip write -> read preserves presence and stream
-    for graphs whose runs of two or more instants are all closed by a '-'; for a graph holding an unclosed
-    two-instant run it does not -- the full statement is refuted by that very graph.  The positive direction is
-    validated by the correspondence run (exhaustive E1 + random), not proved here. *)
+(** ROUND TRIP -- PARTIAL (finding K-C10-1, consequence of K-C05-1): reading back what was written yields a graph of
+    the same class with the same presence relation, for every good graph all of whose runs of two or more instants
+    are closed by a '-' ([all_closed]); the read-back presence is the replay of the written stream *)
+Theorem C10_roundtrip_partial : forall g, GoodG g -> InvLog g -> all_closed g ->
+  exists H, parse_interactions (g_dir g) (gen_interactions g) = RdOk H /\
+            forall u v tau, has_interaction H u v (Some tau) = has_interaction g u v (Some tau).
+Proof. exact interactions_roundtrip. Qed.
+Print Assumptions C10_roundtrip_partial.
+(** the hypotheses hold of every reachable removal-enabled graph, except [all_closed] *)
+Theorem C10_reachable : forall dir cs, GoodG (run_calls (G0 dir) cs) /\ InvLog (run_calls (G0 dir) cs).
+Proof.
+  intros. split.
+  - destruct (Good_reach dir cs) as (H1 & H2 & H3). split; [exact H1|split; [exact H2|exact H3]].
+  - apply (InvLog_run cs (G0 dir) []); [reflexivity|apply Inv_init|apply InvLog_init].
+Qed.
+Print Assumptions C10_reachable.
+(** for a graph holding an unclosed two-instant run the full statement is refuted by that very graph: *)
 Theorem C10_roundtrip_refuted : exists g H u v tau, GoodG g /\
   parse_interactions (g_dir g) (gen_interactions g) = RdOk H /\
   has_interaction g u v (Some tau) = true /\ has_interaction H u v (Some tau) = false.
